@@ -188,3 +188,38 @@ package verifier
 //@ loop 2 modifies outcome.VerificationResults, fieldsof(notation.ValidationResult, Error), elems(outcome.VerificationResults)
 //@ loop 3 invariant authenticityResult == nil && forall(r, 0, rangeindex+1, outcome.VerificationResults[r].Type != trustpolicy.TypeAuthenticity)
 //@ loop 3 exit-assert false
+
+// ---- C06: the right clock ----
+
+//@ func isTSATrustStoreInPolicy
+//@ props C06
+//@ ensures[C06.tsa-in-policy] result1 == nil && result ==> exists(s, 0, len(trustStores), cutFound(trustStores[s], ":") && cutBefore(trustStores[s], ":") == "tsa")
+//@ ensures[C06.tsa-in-policy] result1 == nil && !result ==> forall(s, 0, len(trustStores), cutFound(trustStores[s], ":") && cutBefore(trustStores[s], ":") != "tsa")
+//@ ensures result1 != nil ==> !result
+//@ loop 1 invariant forall(s, 0, rangeindex+1, cutFound(trustStores[s], ":") && cutBefore(trustStores[s], ":") != "tsa")
+
+//@ pure func tsaListed(ts []string) bool = exists(s, 0, len(ts), cutFound(ts[s], ":") && cutBefore(ts[s], ":") == "tsa")
+//@ pure func chainExpired(o *notation.VerificationOutcome) bool = exists(c, 0, len(chainOf(o)), timeAfter(nowT(), chainOf(o)[c].NotAfter))
+//@ pure func chainValidNow(o *notation.VerificationOutcome) bool = forall(c, 0, len(chainOf(o)), !timeBefore(nowT(), chainOf(o)[c].NotBefore) && !timeAfter(nowT(), chainOf(o)[c].NotAfter))
+//@ pure func tsApplies(ts []string, sv trustpolicy.SignatureVerification, o *notation.VerificationOutcome) bool = tsaListed(ts) && (sv.VerifyTimestamp != trustpolicy.OptionAfterCertExpiry || chainExpired(o))
+
+//@ func verifyTimestamp
+//@ props C06
+//@ requires outcomeWF(outcome) && r != nil && x509TrustStore != nil
+//@ at call (*TSTInfo).Validate: assert[C06.imprint-over-signature] arg0 == outcome.EnvelopeContent.SignerInfo.Signature && infoOfToken(recv, signedToken) && tokenFrom(signedToken, string(outcome.EnvelopeContent.SignerInfo.UnsignedAttributes.TimestampSignature))
+//@ at call (*CertPool).AddCert: assert[C06.tsa-roots] recv == rootCertPool && exists(k, 0, len(trustTSACerts), arg0 == trustTSACerts[k])
+//@ at call (*SignedToken).Verify: assert[C06.tsa-verify-args] recv == signedToken && arg1.Roots == rootCertPool && arg1.CurrentTime == timestamp.Value && len(trustTSACerts) >= 1 && forall(k, 0, len(trustTSACerts), fromListedStore(trustTSACerts[k], trustStores, x509TrustStore, truststore.TypeTSA))
+//@ at call (Validator).ValidateContext: assert[C06.tsa-revocation-args] arg1.CertChain == tsaCertChain
+//@ ensures[C06.no-timestamp] result == nil && !tsApplies(trustStores, signatureVerification, outcome) ==> chainValidNow(outcome)
+//@ ensures-local[C06.timestamp] result == nil && tsApplies(trustStores, signatureVerification, outcome) ==> len(outcome.EnvelopeContent.SignerInfo.UnsignedAttributes.TimestampSignature) > 0 && imprintMatches(timestamp, info, string(outcome.EnvelopeContent.SignerInfo.Signature)) && chainsTo(tsaCertChain, signedToken, rootCertPool, timestamp.Value) && tsaChainValid(tsaCertChain) && forall(c, 0, len(chainOf(outcome)), boundedAfter(timestamp, chainOf(outcome)[c].NotBefore) && boundedBefore(timestamp, chainOf(outcome)[c].NotAfter)) && vcErr(r, revocation.ValidateContextOptions{CertChain: tsaCertChain}) == nil && forall(j, 0, len(tsaCertChain), okRes(vcRes(r, revocation.ValidateContextOptions{CertChain: tsaCertChain})[j]))
+//@ loop 1 invariant !expired && forall(c, 0, rangeindex+1, !timeAfter(nowT(), chainOf(outcome)[c].NotAfter))
+//@ loop 2 invariant forall(c, 0, rangeindex+1, !timeBefore(nowT(), chainOf(outcome)[c].NotBefore) && !timeAfter(nowT(), chainOf(outcome)[c].NotAfter))
+//@ loop 4 invariant forall(c, 0, rangeindex+1, boundedAfter(timestamp, chainOf(outcome)[c].NotBefore) && boundedBefore(timestamp, chainOf(outcome)[c].NotAfter))
+
+//@ func verifyAuthenticTimestamp
+//@ props C06 C02
+//@ requires outcomeWF(outcome) && r != nil && x509TrustStore != nil
+//@ ensures[C02.shape] result != nil && fresh(result) && result.Type == trustpolicy.TypeAuthenticTimestamp && result.Action == outcome.VerificationLevel.Enforcement[trustpolicy.TypeAuthenticTimestamp]
+//@ ensures[C06.signing-authority] outcome.EnvelopeContent.SignerInfo.SignedAttributes.SigningScheme != signature.SigningSchemeX509 ==> (result.Error == nil) == forall(c, 0, len(chainOf(outcome)), !timeBefore(outcome.EnvelopeContent.SignerInfo.SignedAttributes.SigningTime, chainOf(outcome)[c].NotBefore) && !timeAfter(outcome.EnvelopeContent.SignerInfo.SignedAttributes.SigningTime, chainOf(outcome)[c].NotAfter))
+//@ ensures[C06.x509-scheme] outcome.EnvelopeContent.SignerInfo.SignedAttributes.SigningScheme == signature.SigningSchemeX509 && result.Error == nil && !tsApplies(trustStores, signatureVerification, outcome) ==> chainValidNow(outcome)
+//@ loop 1 invariant forall(c, 0, rangeindex+1, !timeBefore(outcome.EnvelopeContent.SignerInfo.SignedAttributes.SigningTime, chainOf(outcome)[c].NotBefore) && !timeAfter(outcome.EnvelopeContent.SignerInfo.SignedAttributes.SigningTime, chainOf(outcome)[c].NotAfter))
